@@ -23,9 +23,12 @@ CONFIG = {
             "three base caches) and every account / (account, creatable) / box key / creatable x both types -- live, deleted and "
             "never-existing -- is looked up at every round from dbRound-1 to latest+1 (every third case; the others sample the inner "
             "rounds).  Between G2 and postCommit the unsynchronised lookup variants report where the public ones block; one public "
-            "lookup per window is left blocked in a goroutine and must answer for the round asked after postCommit.  Two scripted "
-            "ill-formed histories replay the necessity witnesses.  Non-trivial = well-formed history, at least one (ok ...) answer and "
-            "one completed commit; distinct = distinct case lines.",
+            "lookup per window is left blocked in a goroutine and must answer for the round asked after postCommit.  Public lookups "
+            "are also issued by reader goroutines that are HELD right after their SQL query (au.accountsq is wrapped in-package) and "
+            "released at random later points, so that their cache write lands after further blocks / commits / evictions.  Scripted "
+            "cases: the two ill-formed histories of the necessity witnesses, and three late-landing schedules (account row, not-found "
+            "note, box) across a commit and a cache turnover (signature late_pending_cache_write).  Non-trivial = well-formed history, "
+            "at least one (ok ...) answer and one completed commit; distinct = distinct case lines.",
     "exhaustive": {"quick": False, "thorough": False},
     "explanation": "theorems quantify over every operation sequence (any partition of the history into commits, any interleaving of "
                    "blocks / lookups / commit phases / reloads / evictions), every lookback and cache size, every history the evaluator "
@@ -38,9 +41,9 @@ CONFIG = {
         "on existing accounts, a creatable index is created at most once and has one type",
         "atomicity of the modelled steps: newBlock, each lookup's memory phase and postCommit run under accountsMu; the commit "
         "transaction is atomic (SQLite); a lookup's DB read sees either the state before or after that transaction",
-        "a lookup's write into the base cache's pending channel happens before the next postCommit+eviction of that key (the Go code "
-        "performs it after dropping the read lock; see the report: a reader stalled across a commit AND a turnover of the whole "
-        "100000-entry cache could plant a stale entry)",
+        "the model is the repaired flush of the base caches (flushPendingWritesSince, fixes/C08.patch): a lookup's cache write may land "
+        "at ANY later time (explicit held-reader operations); for the original flushPendingWrites the property is refuted "
+        "(C08_late_pending_refuted, replayed with a real held reader goroutine)",
     ],
     "trusted_base": [
         "modelled: ledger/acctupdates.go (newBlockImpl, lookupWithoutRewards, lookupResource, lookupKv, getCreatorForRound, "
